@@ -125,7 +125,12 @@ func startWatchdog() {
 
 // Worker is called from the check package's TestWorker.
 func Worker(t *testing.T, spec Spec) {
-	log.SetOutput(io.Discard)
+	if os.Getenv("VERIF_TRACE") == "1" {
+		log.SetFlags(0)
+		log.SetOutput(logSink{})
+	} else if os.Getenv("VERIF_LOG") != "1" {
+		log.SetOutput(io.Discard)
+	}
 	mode := os.Getenv("VERIF_MODE")
 	if mode == "" {
 		mode = "run"
@@ -188,7 +193,19 @@ func runLoop(t *testing.T, spec Spec, tier string, o *out, known map[string]bool
 		cfg := spec.Configure(seed, tier)
 		cfg.Seed = seed
 		wantSample := samples < 3 && os.Getenv("VERIF_SAMPLES") != "0"
+		if os.Getenv("VERIF_DUMP") == "1" {
+			cfg.Trace = true
+		}
 		res := sim.Run(t, cfg, spec.Scenario)
+		if os.Getenv("VERIF_DUMP") == "1" && (res.Budget || res.Failure != nil) {
+			ev := res.Events
+			if len(ev) > 120 {
+				ev = append(append([]string{}, ev[:20]...), ev[len(ev)-100:]...)
+			}
+			for _, e := range ev {
+				fmt.Fprintln(os.Stderr, e)
+			}
+		}
 		agg.Runs++
 		agg.Steps += int64(res.Steps)
 		agg.Preemptions += int64(res.Preemptions)
@@ -368,4 +385,14 @@ func shrink(t *testing.T, spec Spec, o *out) {
 	}
 	rec.Events = ev
 	o.put(rec)
+}
+
+// logSink routes the code under test's log output into the event log of a traced run.
+type logSink struct{}
+
+func (logSink) Write(p []byte) (int, error) {
+	if w := sim.Current(); w != nil {
+		w.Note("log: %s", strings.TrimSpace(string(p)))
+	}
+	return len(p), nil
 }
